@@ -32,7 +32,7 @@ MODELS = {
     "MC_C14": (dict(T=20, Q=6000, NINST=1, LENS=S(1, 2, 3, 7, 13), MAXPROG=2, CAPS=S(120), Q0=6020, CHUNKS=rng(0, 20), OFFS=rng(0, 20), KINDS=S("ext"),
                     SETTERS="{}", DEPTH=3, EMITACTS=S("count")), dict(CHUNKS=rng(0, 33), OFFS=rng(0, 33))),
     "MC_C06": (dict(T=4, Q=6, NINST=1, LENS=S(1, 2, 3), MAXPROG=3, CAPS=S(24), Q0=10, CHUNKS="{}", OFFS=rng(0, 3), KINDS=S("ext", "int"),
-                    SETTERS="{}", DEPTH=4, EMITACTS=S("asm")), {}),
+                    SETTERS="{}", DEPTH=4, EMITACTS=S("asm")), dict(DEPTH=5, LENS=S(1, 2, 3, 4), OFFS=rng(0, 5))),
     "MC_C15": (dict(T=4, Q=6, NINST=2, LENS=S(1, 3), MAXPROG=2, CAPS=S(7, 12), Q0=10, CHUNKS=S(0, 2, 4), OFFS=S(0, 2, 5), KINDS=S("ext", "int"),
                     SETTERS="{}", DEPTH=4, EMITACTS=S("asm", "count")), dict(DEPTH=5)),
 }
@@ -550,13 +550,13 @@ def validate(results, L, shards=None):
 # ----------------------------------------------------------------------------- per-property drivers
 PLAN = {
     # property: (model configs, random flavour, quick random histories, thorough random histories)
-    "C06": (["MC_C06"], "C06", 300, 3000),
-    "C07": (["MC_C07"], "C07", 600, 8000),
-    "C08": (["MC_C08"], "C08", 150, 1500),
-    "C12": (["MC_C12"], "C12", 400, 3000),
-    "C13": (["MC_C13"], "C13", 400, 4000),
-    "C14": (["MC_C14"], "C14", 400, 4000),
-    "C15": (["MC_C15"], "C15", 800, 10000),
+    "C06": (["MC_C06"], "C06", 300, 30000),
+    "C07": (["MC_C07"], "C07", 600, 60000),
+    "C08": (["MC_C08"], "C08", 150, 8000),
+    "C12": (["MC_C12"], "C12", 400, 30000),
+    "C13": (["MC_C13"], "C13", 400, 30000),
+    "C14": (["MC_C14"], "C14", 400, 30000),
+    "C15": (["MC_C15"], "C15", 800, 60000),
     "C19": ([], "C19", 0, 0),
 }
 QUICK_REPLAY = {"MC_C13": 6000, "MC_C07": 8000, "MC_C08": 4000, "MC_C14": 6000, "MC_C15": 8000, "MC_C12": None, "MC_C06": None}
